@@ -854,3 +854,34 @@ Proof.
   destruct (trace_accepted sk quota n B Hq (whole_msgs sk (acq_of g (acq s)))) as (_ & Hlog' & _).
   rewrite Hlog', Ev. symmetry. exact Hlog.
 Qed.
+
+(* ------------------------------------------------------------------ Part 6: the fatal path — flush() also runs under the guard *)
+Lemma flush_guarded_spec g : forall rest pre, flush_guarded_from g rest (fold_left (next g) pre P0) = true ->
+  forall n, nth_error (pre ++ rest) n = Some Flush -> length pre <= n -> holding (phase_at g (pre ++ rest) n) = true.
+Proof.
+  induction rest as [|i rest IH]; intros pre H n Hn Hle.
+  - rewrite app_nil_r in Hn. assert (nth_error pre n = None) by (apply nth_error_None; lia). congruence.
+  - cbn [flush_guarded_from] in H. apply andb_prop in H as [Hi Hr].
+    destruct (Nat.eq_dec n (length pre)) as [->|Hne].
+    + rewrite nth_error_app2 in Hn by lia. rewrite Nat.sub_diag in Hn. cbn in Hn. injection Hn as ->.
+      unfold phase_at. replace (length pre) with (length pre + 0) by lia. rewrite firstn_app_2. cbn [firstn]. rewrite app_nil_r. exact Hi.
+    + replace (pre ++ i :: rest) with ((pre ++ [i]) ++ rest) in * by (rewrite <- app_assoc; reflexivity).
+      apply IH; [rewrite fold_left_app; exact Hr|exact Hn|rewrite app_length; cbn; lia].
+Qed.
+
+Theorem sink_exclusion sk quota n : sinks_guarded sk = true -> threads_below n quota ->
+  forall sched t1 t2, at_sink sk (run sk quota s0 sched) t1 = true -> at_sink sk (run sk quota s0 sched) t2 = true -> t1 = t2.
+Proof.
+  intros G Hq sched t1 t2 H1 H2.
+  assert (exists g, shape g sk = true /\ flush_guarded_from g sk P0 = true) as (g & Hs & Hf).
+  { unfold sinks_guarded in G. apply orb_prop in G as [G|G]; apply andb_prop in G as [A B]; [exists L|exists M]; split; assumption. }
+  destruct (reach_inv sk g quota n Hs Hq (run sk quota s0 sched)) as [a I]; [exists sched; reflexivity|].
+  assert (Hold : forall t, at_sink sk (run sk quota s0 sched) t = true ->
+                           holding (phase_at g sk (pc (th (run sk quota s0 sched) t))) = true).
+  { intros t H. unfold at_sink in H. destruct (nth_error sk (pc (th (run sk quota s0 sched) t))) as [[m|m| | |]|] eqn:En; try discriminate.
+    - assert (E : phase_at g sk (pc (th (run sk quota s0 sched) t)) = P1).
+      { apply (work_phase g). rewrite <- (phase_S g sk _ _ En). apply phase_ok. exact Hs. }
+      rewrite E. reflexivity.
+    - apply (flush_guarded_spec g sk [] Hf _ En). cbn. lia. }
+  apply (hold_unique sk g quota n (run sk quota s0 sched) a t1 t2 I (Hold t1 H1) (Hold t2 H2)).
+Qed.
